@@ -178,6 +178,12 @@ inductive Geom
   | ofFile             -- the geometry the GeoJSON file denotes
   deriving DecidableEq
 
+instance : DecidableEq (Except UsageError Geom)
+  | .ok a, .ok b => if h : a = b then isTrue (by rw [h]) else isFalse (by intro e; cases e; exact h rfl)
+  | .error a, .error b => if h : a = b then isTrue (by rw [h]) else isFalse (by intro e; cases e; exact h rfl)
+  | .ok _, .error _ => isFalse (by intro e; cases e)
+  | .error _, .ok _ => isFalse (by intro e; cases e)
+
 /-- `pathlib.PurePath.suffix` of a final path component: from the last dot, unless that dot
 is the first or the last character. -/
 def pathSuffix (name : List Char) : List Char :=
